@@ -25,6 +25,7 @@ props! {
     "C01" => c01,
     "C02" => c02,
     "C03" => c03,
+    "C04" => c04,
     "C07" => c07,
     "C08" => c08,
     "C12" => c12,
